@@ -1205,6 +1205,11 @@ def battlife_case(args):
         out["outcome"] = type(e).__name__
         if (bnode._params["vo"], bnode._params["rs"]) != (vo0, rs0): F("batt.restore", "battery vo/rs not restored after %s" % type(e).__name__, ("C17", "C18"))
         return out
+    except Exception as e:
+        out["outcome"] = type(e).__name__
+        F("batt.exception", "batt_life() with a well-formed battery model raised %s: %s" % (type(e).__name__, str(e)[:80]))
+        if (bnode._params["vo"], bnode._params["rs"]) != (vo0, rs0): F("batt.restore", "battery vo/rs not restored after %s" % type(e).__name__, ("C17", "C18"))
+        return out
     out["outcome"] = "log"
     if (bnode._params["vo"], bnode._params["rs"]) != (vo0, rs0): F("batt.restore", "battery vo/rs not restored on return (%r, %r) != (%r, %r)" % (bnode._params["vo"], bnode._params["rs"], vo0, rs0), ("C17", "C18"))
     if st["probe"] != 1: F("batt.probe", "battery probed %d times" % st["probe"])
@@ -1388,4 +1393,45 @@ def loose_dead_case(args):
 def loose_dead_family(seed, n):
     return summarize(run_pool(loose_dead_case, [(seed, i) for i in range(n)]),
                      "random systems with dead sources / inactive elements / micro-amp sleep loads solved with loose tolerances (itol, vtol in 1e-5..1e-2): rows below a dead rail are exactly zero, inactive elements draw exactly their sleep current",
+                     "trees <= 7 components")
+
+
+# ============================================================================================================ a component moved under its own name
+def move_case(args):
+    """solve(); a load is deleted and added again under the SAME name below another parent (node slot and name re-used, node and edge
+    counts unchanged); solve() again: the table is that of the new tree (reference model, and a system built from scratch)"""
+    seed, idx, props = args
+    rnd = _rnd(seed, idx)
+    recipe = gen.random_system(rnd, max_nodes=7, n_sources=(1, 2), p_mux=0.2, p_phases=0.3, p_dead_source=0.3, p_table=0.1)
+    out = {"hash": _hash([recipe, idx]), "failures": [], "nontrivial": True, "sample": None, "outcome": None}
+    s, _ = gen.build(recipe); m = Model.of(recipe)
+    loads = [n for n in m.nodes if m.nodes[n].type == "LOAD" and len(m.nodes[n].parents) == 1]
+    hosts = [n for n in m.nodes if m.nodes[n].type != "LOAD" and m.nodes[n].kind != "PMux"]
+    if not loads or len(hosts) < 2: out["outcome"] = "no move possible"; return out
+    L = rnd.choice(loads); Q = rnd.choice([h for h in hosts if h != m.nodes[L].parents[0]])
+    oc0, _ = _solve_outcome(s)
+    spec = [op["comp"] for op in recipe["ops"] if "comp" in op and op["comp"]["name"] == L][-1]
+    mv = [{"op": "del_comp", "name": L, "del_childs": True}, {"op": "add_comp", "parent": Q, "comp": copy.deepcopy(spec), "group": "", "rail": ""}]
+    try:
+        for op in mv: gen.apply_op(s, op)
+    except Exception:
+        out["outcome"] = "move rejected"; return out
+    r2 = {"ops": recipe["ops"] + mv}; m2 = Model.of(r2)
+    def F(key, text, pr):
+        if set(pr) & set(props): out["failures"].append({"key": key, "text": text, "props": pr, "recipe": r2})
+    oc, df = _solve_outcome(s)
+    s3, _ = gen.build(r2, strict=False); oc3, df3 = _solve_outcome(s3)
+    out["outcome"] = "%s->%s" % (oc0, oc)
+    if oc != oc3: F("move.outcome", "after solve, del_comp(%r), add_comp(%r, %r): solve %s; a system built from scratch that way: %s" % (L, Q, L, oc, oc3), ["C01", "C04", "C16", "C03"]); return out
+    if oc == "table":
+        d = frames_differ(df, df3, ["Component", "Phase"])
+        if d: F("move.values", "after solve, del_comp(%r), add_comp(%r, %r) the table differs from a system built from scratch that way: %s" % (L, Q, L, d), ["C01", "C04", "C16", "C03"])
+        for f in oracle.check_table(m2, df, s):
+            F("move:" + f["key"], f["text"], f["props"])
+    return out
+
+
+def move_family(seed, n, props):
+    return summarize(run_pool(move_case, [(seed, i, list(props)) for i in range(n)]),
+                     "random systems (dead sources, phases): solve(), then a load is deleted and added again under the same name below another parent (same node / edge counts, same names), solve() again; compared with a system built from scratch and with the table oracle",
                      "trees <= 7 components")
